@@ -13,7 +13,7 @@ PROPERTY = "C09"
 LEVEL = "exploration"
 BUDGET_S = {"quick": 50, "thorough": 900}
 FLOOR = {"quick": 3000, "thorough": 100000}
-MUST_REACH = ("table_entries_judged", "protocol_numbers_judged", "splitter_cases_judged", "number_roundtrips_judged")
+MUST_REACH = ("table_entries_judged", "protocol_numbers_judged", "splitter_cases_judged", "number_roundtrips_judged", "platform_switch_histories")
 RULE = ("complete enumeration: {asa,ios,nxos} x version strings {'', '15', '15.2(02)SY', '16.09.06', '9.3(8)'} x {tcp,udp} x "
         "every table name (name -> number vs oracle/names.py; number -> rendered name -> parsed back), every protocol "
         "number 0..255 x platform x protocol_nr x has_port and every protocol name x platform, one ACE per table name on "
@@ -103,6 +103,23 @@ def run(ctx) -> None:
                     ctx.violation(case, "port_nr switch changed the number or left a name", nr.line)
             except Exception as ex:  # pylint: disable=broad-except
                 ctx.violation(case, "a table name was rejected by Port", f"{type(ex).__name__}: {ex}")
+            # history on one object: render, switch the platform, render again - the name chosen then belongs to the new platform
+            for target in PLATFORMS:
+                if target == platform:
+                    continue
+                try:
+                    live = Port(f"eq {name}", **kw)
+                    _ = live.line
+                    live.platform = target
+                    shown = live.line.split()[1]
+                    back = Port(f"eq {shown}", protocol=proto, platform=target, version=version)
+                    if back.items != [std.get(name, num)] or live.items != [std.get(name, num)]:
+                        ctx.violation(case, "after a platform switch the rendered port does not denote the same number",
+                                      f"{platform}->{target}: {name} -> {shown} -> {back.items}")
+                except Exception as ex:  # pylint: disable=broad-except
+                    ctx.violation(case, "after a platform switch the rendered port name is not accepted by the new platform",
+                                  f"{platform}->{target}: {name}: {type(ex).__name__}: {str(ex)[:120]}")
+                ctx.count("platform_switch_histories")
             ctx.count("table_entries_judged")
             ctx.judged(sig=("name", platform, version, proto, name), sample=case if idx % 97 == 0 else None)
         for num, name in sorted(p2n.items()):
